@@ -10,6 +10,7 @@ import (
 	"fmt"
 	"os"
 	"os/exec"
+	"runtime/pprof"
 	"sort"
 	"strings"
 	"sync"
@@ -101,8 +102,16 @@ func worker(prop, scID, out string) {
 	if thorough {
 		budgetS = 3000
 	}
+	if v := os.Getenv("VERIF_E1_BUDGET_S"); v != "" {
+		fmt.Sscanf(v, "%f", &budgetS)
+	}
 	cfg.Deadline = t0.Add(time.Duration(budgetS * float64(time.Second)))
 	ex := sim.NewExplorer(w, cfg, r)
+	if pf := os.Getenv("VERIF_CPUPROFILE"); pf != "" {
+		f, _ := os.Create(pf)
+		_ = pprof.StartCPUProfile(f)
+		defer pprof.StopCPUProfile()
+	}
 	ex.Run(sim.Budget{User: plan.MaxUser, Disturb: plan.MaxDisturb})
 	if plan.Liveness {
 		ex.Liveness()
@@ -132,6 +141,9 @@ func parent(prop string) {
 	}
 	r := lib.NewReport(prop)
 	outDir := "/verif/.cache/e1/" + prop
+	if d := os.Getenv("VERIF_OUT_ROOT"); d != "" {
+		outDir = d + "/e1/" + prop
+	}
 	_ = os.MkdirAll(outDir, 0o755)
 	var mu sync.Mutex
 	var wg sync.WaitGroup
@@ -148,7 +160,7 @@ func parent(prop string) {
 			out := fmt.Sprintf("%s/%s.json", outDir, scID)
 			_ = os.Remove(out)
 			cmd := exec.Command(os.Args[0], "--worker", prop, scID, out)
-			cmd.Dir = "/repo"
+			cmd.Dir, _ = os.Getwd()
 			logf, _ := os.Create(fmt.Sprintf("%s/%s.log", outDir, scID))
 			cmd.Stdout, cmd.Stderr = logf, logf
 			err := cmd.Run()
